@@ -249,7 +249,7 @@ func (r *Reporter) Finish() int {
 		keys = append(keys, k)
 	}
 	sort.Strings(keys)
-	var vioSummary []map[string]any
+	vioSummary := []map[string]any{}
 	var lines []string
 	for _, k := range keys {
 		for i, f := range r.violations[k] {
@@ -294,7 +294,25 @@ func (r *Reporter) Finish() int {
 	cov["bounds"] = r.bounds
 	cov["families"] = r.families
 	cov["distinct_outcomes"] = len(r.outcomes)
-	cov["outcome_histogram"] = r.outcomes
+	hist := r.outcomes
+	if len(hist) > 80 {
+		// keep the evidence readable: the 80 most frequent classes (the distinct count stays exact)
+		type kv struct {
+			k string
+			v int64
+		}
+		var all []kv
+		for k, v := range hist {
+			all = append(all, kv{k, v})
+		}
+		sort.Slice(all, func(i, j int) bool { return all[i].v > all[j].v || all[i].v == all[j].v && all[i].k < all[j].k })
+		hist = map[string]int64{}
+		for _, e := range all[:80] {
+			hist[e.k] = e.v
+		}
+		cov["outcome_histogram_truncated"] = true
+	}
+	cov["outcome_histogram"] = hist
 	cov["known_findings_hit"] = knownHit
 	cov["violation_keys"] = vioSummary
 	if len(r.diverged) > 0 {
